@@ -605,12 +605,12 @@ PROPS["C05"] = {
           what="listener draining (reset_all, reset_next, reset_all) while up to 3 notifications land at any of its "
                "shared-memory operations: no lost, no phantom, never more deliveries than notifications",
           bounds="unwind 12; ids {1,8,9}"),
-        H("cal::c05ev::c05_ev_history", features=CAL, covers=2, timeout=5400, mem_gb=30, tiers=("thorough",),
+        H("cal::c05ev::c05_ev_history", features=CAL, covers=2, timeout=5400, mem_gb=16, tiers=("thorough",),
           unwindset={"bit_set&7set_bit": 2, "bit_set&9reset_all&.1": 2},
           what="real event hand-shake (Handle::notify / Waiter::drain_events) over KStorage + counting trigger: 3 symbolic "
                "notify/try_wait/blocking_wait steps; delivered == notified-and-undelivered; no sleep while pending",
           bounds="unwind 16; ids <= 3"),
-        H("cal::c05ev::c05_ev_notify_races_wait", features=CAL, covers=2, timeout=7200, mem_gb=34, tiers=("thorough",),
+        H("cal::c05ev::c05_ev_notify_races_wait", features=CAL, covers=2, timeout=3600, mem_gb=12,
           unwindset={"bit_set&7set_bit": 2, "bit_set&9reset_all&.1": 2},
           what="a notification wakes the listener inside its wait call (or at the start of the drain) and a second one "
                "(id symbolic) completes while the collected ids are handed to the callback; the following wait delivers "
@@ -752,12 +752,15 @@ PROPS["C05"].update({
     "level_text": _BMC + ". Event-id stores (BitSet, CountingBitSet): symbolic set/reset_next/reset_all histories "
                   "against a mask / count model, and a draining listener preempted at each shared-memory operation while "
                   "notifications land (no lost, no phantom, never more deliveries than notifications). " + _SCHED +
-                  ". Thorough tier adds the real event hand-shake (event::common Handle::notify / Waiter::drain_events) "
-                  "over an in-memory DynamicStorage and a counting model trigger, including a notification that "
-                  "races the wait call and the collecting loop.",
-    "level_note": "quick tier is the bit-set level only; the hand-shake harnesses need 30-35 GB and ~1 h and live in the "
-                  "thorough tier; OS trigger back-ends (semaphore, sockets) are replaced by a model trigger; timed waits, "
-                  "port layer (notifier.rs/listener.rs) outside the claim",
+                  ". The real event hand-shake (event::common Handle::notify / Waiter::drain_events) runs over an "
+                  "in-memory DynamicStorage and a counting model trigger: a notification that wakes the listener inside "
+                  "its wait call and a second one that completes while the collected ids are handed out must both be "
+                  "delivered and the following wait must never sleep on a pending notification (thorough tier adds "
+                  "symbolic notify/try_wait/blocking_wait histories and the 3-drain race).",
+    "level_note": "OS trigger back-ends (semaphore, sockets) are replaced by a model trigger; ids <= 3 (hand-shake) / "
+                  "<= 9 (bit set); interleavings at the hand-shake level are the two seams of the model trigger and the "
+                  "user callback, not every atomic operation; timed waits, port layer (notifier.rs/listener.rs) outside "
+                  "the claim",
 })
 PROPS["C08"].update({
     "level_text": "MIR -> SMT-LIB2 translation of the real sizing functions (publish_subscribe / request_response static "
